@@ -266,4 +266,14 @@ PROPS = {
             {"name": "c19.stress", "pkg": ROUTING, "test": "TestVerifC19Stress", "crash_is_violation": True},
         ],
     },
+    "C20": {
+        "level": "exploration",
+        "technique": "differential rapid property test: the node's routing table against an independent Floyd-Warshall over the link-state graph the node holds; validity predicate for next hops; arrival-order model for link-state updates",
+        "level_text": "Generated link-state graphs (own neighbours through real peer events, other nodes' link state through real DTLSR-block bundles in generated arrival orders) are fed to a real Core; after the recompute job the table must be a least-cost table for some instant in the bracket of clock readings, with next hops among the node's own neighbours; unicast bundles must only go to that next hop.",
+        "level_note": "lost links of the node itself are 0..20 ms old (real waits), received ones arbitrary; loss times in the future (clock skew) are outside the domain; the exhaustive enumeration of all graphs on 4 nodes is replaced by random graphs",
+        "assumptions": ["several correct next hops may exist: a validity predicate is checked, not one expected answer"],
+        "units": [
+            {"name": "c20.graphs", "pkg": ROUTING, "test": "TestVerifC20Graphs", "shards_t": 16, "shards_q": 6, "crash_is_violation": True},
+        ],
+    },
 }
